@@ -190,7 +190,7 @@ let () =
       Buffer.add_string out ("R " ^ res ^ " | " ^ snapshot (fs_files !w.w_fs) ^ "\n"); if Buffer.length out > 60000 then flush_out () end in
   let do_op (o:op) : out = if run_model then (let (w', r) = step' !w o in w := w'; r) else RUnit in
   (* judge state *)
-  let js = ref judge_init and jdead = ref false and opidx = ref 0 in
+  let js = ref judge_init and jdead = ref false and opidx = ref 0 and last_fail = ref (-1) in
   let jprint s = match joc with Some oc -> output_string oc (s ^ "\n") | None -> () in
   let judging () = joc <> None && impl <> None in
   (* compare the expected files with the snapshot of the implementation *)
@@ -220,7 +220,15 @@ let () =
       let (js', allowed) = judge_step !js o in
       js := js';
       if not (ss_det js') then (jprint (Printf.sprintf "J %d undet" !opidx); jdead := true)
-      else if not (allowed r) then (jprint (Printf.sprintf "J %d FAIL result %s :: got %s" !opidx desc (string_of_out r)); jdead := true)
+      else if not (allowed r) then begin
+        jprint (Printf.sprintf "J %d FAIL result %s :: got %s" !opidx desc (string_of_out r));
+        last_fail := !opidx;
+        (* a wrong answer of a read or an accessor leaves the abstract state as the properties prescribe it:
+           judging goes on; after a wrong answer of new/open/close/push or a fault operation it stops *)
+        (match o with
+         | OReadAll _ | OReadFirstN _ | OReadN _ | ONLines _ | OLastLine | OLen | OIsEmpty | ORange | OPayloadSize -> ()
+         | _ -> jdead := true)
+      end
     end in
   let jfiles (snap:(string * (int * string)) list) : unit =
     if judging () && not !jdead then
@@ -228,7 +236,7 @@ let () =
          (the abstract state is still what the properties prescribe) *)
       match check_files snap with
       | Some msg -> jprint (Printf.sprintf "J %d FAIL %s" !opidx msg)
-      | None -> jprint (Printf.sprintf "J %d ok" !opidx) in
+      | None -> if !last_fail <> !opidx then jprint (Printf.sprintf "J %d ok" !opidx) in
   let payload_size_model () : int = match step' !w OPayloadSize with
     | (_, RNum v) -> (match int64_of_n v with Some x -> Int64.to_int x | None -> 0)
     | _ -> 0 in
